@@ -146,6 +146,8 @@ class World:
         def start_of(unit):
             if unit == "day":
                 nd = d
+            elif unit == "week":
+                nd = d - _dt.timedelta(days=d.weekday())        # weeks start on Monday unless week_starts_at() says otherwise (C12)
             elif unit == "month":
                 nd = d.replace(day=1)
             elif unit == "year":
